@@ -185,7 +185,10 @@ def r3_r5(ctx, F, hub):
         dos = hub.deep_origins(b, ct['args'][1])
         exp_ok = bool(dos)
         for bp, o in dos:
-            if not (o.kind == 'param' and TAINT in hub.param_label(F.body(bp), o.key) and 'Option<[u8; 32]>' in F.body(bp).local_ty(o.key)):
+            # the client's value: the handler's Option<[u8; 32]> parameter, or that field of a request-header struct parameter
+            pb_ = F.body(bp)
+            vt = (origin_value_type(F, pb_, o) or '').replace(' ', '') if o.kind == 'param' else ''
+            if not (o.kind == 'param' and TAINT in hub.param_label(pb_, o.key) and vt.endswith('Option<[u8;32]>')):
                 exp_ok = False
         ctx.check(exp_ok, 'C03.R3', '%s:expected-untouched' % handler, '`expected` is the request\'s field, unmodified',
                   'the `expected` compared by cas_decide is not the client\'s value unchanged (%s)' % sorted('%s:%s' % (o.kind, o.key) for _, o in dos), term_loc(b, cb))
